@@ -156,6 +156,65 @@ func direct(r *c.Rng) c.Case {
 	}
 }
 
+// membership sweeps: longer mixed-case lists in random order, asked about one of their own entries
+// (as written, upper-cased, lower-cased) or a near miss — whatever lookup structure the validator
+// builds (sorted slice, map, de-duplicated list), every listed entry must be found
+var sweepAddrs = []string{"Zed@x.com", "amy@x.com", "Bob@b.com", "carl@C.com", "DAVE@d.com", "erin@e.com", "Alice@Example.com",
+	"_under@x.com", "~tilde@x.com", "0zero@x.com", "a@a.com", "B@a.com", "aa@a.com", "Ab@a.com", "ßig@évil.com", "Ωmega@x.com"}
+var sweepDoms = []string{"Zeta.com", "alpha.com", "Beta.org", "gamma.ORG", "DELTA.net", "a.com", "B.com", "aa.com", "Ab.com", "0.com", "_x.com", "évil.com"}
+
+func recase(r *c.Rng, s string) string {
+	switch r.Intn(3) {
+	case 0:
+		return strings.ToUpper(s)
+	case 1:
+		return strings.ToLower(s)
+	}
+	return s
+}
+
+func sweepList(r *c.Rng, pool []string) []string {
+	n := 2 + r.Intn(7)
+	l := make([]string, 0, n)
+	for _, i := range r.Perm(len(pool))[:n] {
+		l = append(l, pool[i])
+	}
+	if r.Chance(0.2) { // a duplicate in another spelling
+		l = append(l, recase(r, l[r.Intn(len(l))]))
+	}
+	return l
+}
+
+func sweep(r *c.Rng) c.Case {
+	if r.Chance(0.5) {
+		rules := sweepList(r, sweepAddrs)
+		email := recase(r, r.Pick(rules))
+		if r.Chance(0.25) {
+			email = recase(r, r.Pick(sweepAddrs)) // often not listed
+		}
+		v := validators.NewEmailAddressValidator(rules)
+		obs := v.Validate(&sessions.SessionState{Email: email}) == nil
+		all := append([]string{email}, rules...)
+		return c.Case{
+			Coq:  fmt.Sprintf("CAddr %s %s %s %s", lowerTab(all...), c.Strs(rules), c.Str(email), c.Bool(obs)),
+			JSON: map[string]interface{}{"kind": "address-sweep", "rules": rules, "email": email, "obs": obs},
+		}
+	}
+	rules := sweepList(r, sweepDoms)
+	d := r.Pick(rules)
+	if r.Chance(0.25) {
+		d = r.Pick(sweepDoms)
+	}
+	email := r.Pick(localPool) + "@" + recase(r, d)
+	v := validators.NewEmailDomainValidator(rules)
+	obs := v.Validate(&sessions.SessionState{Email: email}) == nil
+	all := append([]string{email}, rules...)
+	return c.Case{
+		Coq:  fmt.Sprintf("CDom %s %s %s %s", lowerTab(all...), c.Strs(rules), c.Str(email), c.Bool(obs)),
+		JSON: map[string]interface{}{"kind": "domain-sweep", "rules": rules, "email": email, "obs": obs},
+	}
+}
+
 func yamlList(l []string) string {
 	q := make([]string, len(l))
 	for i, s := range l {
@@ -262,9 +321,24 @@ func genGate(r *c.Rng) gateCase {
 		g.Groups = genList(r, grpPool, false)
 	}
 	g.Email = genEmail(r, g.Doms, g.Addrs)
+	if r.Chance(0.25) { // membership sweep through the real configuration path
+		switch {
+		case mask&1 != 0:
+			g.Addrs = sweepList(r, sweepAddrs)
+			g.Email = recase(r, r.Pick(g.Addrs))
+		case mask&2 != 0:
+			g.Doms = sweepList(r, sweepDoms)
+			g.Email = r.Pick(localPool[:3]) + "@" + recase(r, r.Pick(g.Doms))
+		default:
+			g.Groups = sweepList(r, []string{"g1", "g2", "eng", "Ops", "a", "B", "aa", "Ab", "zz", "_x"})
+		}
+	}
 	n := r.Intn(3)
 	for i := 0; i < n; i++ {
 		g.UserGroups = append(g.UserGroups, r.Pick([]string{"g1", "g2", "eng", "other", "G1"}))
+		if len(g.Groups) > 3 && r.Chance(0.6) {
+			g.UserGroups[i] = r.Pick(g.Groups)
+		}
 	}
 	if g.UserGroups == nil {
 		g.UserGroups = []string{}
@@ -302,6 +376,10 @@ func main() {
 		cases = append(cases, gate(r, auth, dir, genGate(r)))
 	}
 	for i := 0; i < a.N-nGate; i++ {
+		if i%3 == 2 {
+			cases = append(cases, sweep(r))
+			continue
+		}
 		cases = append(cases, direct(r))
 	}
 	c.Must(c.WriteShards(a.Out, "Corr_C11", cases, a.Shard))
